@@ -348,6 +348,8 @@ def replay(mon, kind, params):
 
 def gen_e(rng):
     r = rng.random()
+    if r < 0.15:
+        return rng.uniform(0.95, 1.0)
     if r < 0.6:
         return rng.random()
     if r < 0.85:
@@ -360,6 +362,17 @@ def gen_e(rng):
 
 def gen_M(rng):
     r = rng.random()
+    if r < 0.08:
+        # round values: whole degrees and binary fractions of a turn (a
+        # bisection started at a quarter turn lands on them exactly)
+        return rng.choice((11.25 * rng.randrange(-64, 65),
+                           float(rng.randrange(-720, 721)),
+                           360.0 / 2 ** rng.randrange(1, 12)
+                           * rng.choice((1, -1, 3, 5))))
+    if r < 0.2:
+        # the weeks around perihelion, where iterations on very eccentric
+        # orbits are slowest to settle
+        return rng.uniform(-30.0, 30.0) + 360.0 * rng.choice((0, 0, 1, -3))
     if r < 0.55:
         return rng.uniform(-1e4, 1e4)
     if r < 0.7:
